@@ -52,7 +52,21 @@ func VH_C01_Settle() {
 	}
 	_ = topup // top-ups during the hand are inside the quantifier (defect repaired, see known_findings.json)
 
+	// subscribers may call back into the engine from any callback (leave, re-buy, ...):
+	// whatever settlement publishes must therefore show every result already credited
+	published := 0
+	settled := func() {
+		published++
+		for k := 0; k < m; k++ {
+			verifrt.Assert(te.table.State.PlayerStates[gpi[k]].Bankroll == pre[gpi[k]]+changed[k], "settlement publishes nothing before every result has been credited")
+		}
+	}
+	te.OnTableUpdated(func(*Table) { settled() })
+	te.OnTableStateUpdated(func(string, *Table) { settled() })
+	te.OnTablePlayerStateUpdated(func(string, string, *TablePlayerState) { settled() })
+
 	te.settleGame()
+	verifrt.Assert(published >= 1, "settlement is published")
 
 	verifrt.Assert(te.table.State.Status == TableStateStatus_TableGameSettled, "status settled")
 	for i := 0; i < n; i++ {
